@@ -235,6 +235,21 @@ fn fmts() -> Vec<Fmt> {
     v
 }
 
+/// a character for mutations: the parser's own alphabet, look-alikes of it in other blocks
+/// (number forms, super/subscripts, fullwidth forms, other scripts' digits, dashes and spaces),
+/// or any scalar value
+fn any_char<R: Rng>(rng: &mut R, alphabet: &[char]) -> char {
+    const BLOCKS: [(u32, u32); 9] = [(0x2150, 0x2190), (0x2070, 0x20A0), (0xFF00, 0xFFF0), (0x0660, 0x066A), (0x2010, 0x2016), (0x2212, 0x2216), (0x2000, 0x2010), (0x00B0, 0x00C0), (0x1D7CE, 0x1D800)];
+    match rng.gen_range(0, 4) {
+        0 => {
+            let (lo, hi) = BLOCKS[rng.gen_range(0, BLOCKS.len())];
+            std::char::from_u32(rng.gen_range(lo, hi)).unwrap_or('x')
+        }
+        1 => std::char::from_u32(rng.gen_range(0, 0x110000)).unwrap_or('y'),
+        _ => alphabet[rng.gen_range(0, alphabet.len())],
+    }
+}
+
 pub fn arbitrary_string<R: Rng>(rng: &mut R) -> String {
     let alphabet: Vec<char> = "xyXYz0123456789+-*/,.() \t\n()[]{}abc\u{e9}\u{4e2d}\u{1F600}\0\\\"'eE".chars().collect();
     match rng.gen_range(0, 8) {
@@ -263,14 +278,14 @@ pub fn arbitrary_string<R: Rng>(rng: &mut R) -> String {
             for _ in 0..rng.gen_range(1, 4) {
                 let i = rng.gen_range(0, s.len());
                 match rng.gen_range(0, 3) {
-                    0 => s[i] = alphabet[rng.gen_range(0, alphabet.len())],
+                    0 => s[i] = any_char(rng, &alphabet),
                     1 => {
                         s.remove(i);
                         if s.is_empty() {
                             s.push(',');
                         }
                     }
-                    _ => s.insert(i, alphabet[rng.gen_range(0, alphabet.len())]),
+                    _ => s.insert(i, any_char(rng, &alphabet)),
                 }
             }
             s.into_iter().collect()
@@ -303,8 +318,39 @@ pub fn check_arbitrary(s: &str, st: &mut Stats) {
     }
 }
 
+/// every Unicode scalar value of `lo..hi` placed, alone, at each position of a component where
+/// the parser is in a different state (start, after a sign, after an operator, as numerator, as
+/// denominator, inside parentheses, at the end): whatever a parser does with look-alike digits,
+/// fractions, signs or spaces of other scripts, it must answer Ok or Err
+pub const SWEEP_TEMPLATES: [&str; 9] = ["x+@,y", "@,y", "x,@", "x,y@", "x+1/@,y", "(@x,y)", "x,-@", "@/2,y", "x@y,y"];
+pub fn sweep_codepoints(lo: u32, hi: u32, st: &mut Stats) {
+    let mut n = 0u64;
+    for cp in lo..hi {
+        let c = match std::char::from_u32(cp) {
+            Some(c) => c,
+            None => continue,
+        };
+        let mut buf = [0u8; 4];
+        let cs: &str = c.encode_utf8(&mut buf);
+        for t in SWEEP_TEMPLATES.iter() {
+            let s = t.replace('@', cs);
+            if let Err(p) = silent_parse(&s) {
+                st.eval();
+                st.violation(Violation {
+                    kind: "c17.arbitrary".into(),
+                    signature: "Transform2::from_operations:panic-on-arbitrary-string".into(),
+                    case: json!({ "string": s }),
+                    detail: json!({"panic": p, "code_point": format!("U+{:04X}", cp), "template": t}),
+                });
+            }
+            n += 1;
+        }
+    }
+    st.add("code_point_placements_parsed", n);
+}
+
 pub fn run(ctx: &Ctx) {
-    ctx.set_rule("grammar strings are built from (terms, format) descriptions - every non-empty subset of {+-x, +-y, +-p[/q]} in every order, p in 0..9, q in 1..9, in either component against partner components, under 32 spacing/parenthesis/explicit-plus formats (thorough: all; quick: all components x 4 formats + random) - and the parsed map is compared at 6 points with the map the description denotes (1e-15); distinct = distinct strings; plus arbitrary strings (random bytes, unicode, 20k-char, unbalanced, division by zero) which must return Ok/Err without panicking");
+    ctx.set_rule("grammar strings are built from (terms, format) descriptions - every non-empty subset of {+-x, +-y, +-p[/q]} in every order, p in 0..9, q in 1..9, in either component against partner components, under 32 spacing/parenthesis/explicit-plus formats (thorough: all; quick: all components x 4 formats + random) - and the parsed map is compared at 6 points with the map the description denotes (1e-15); distinct = distinct strings; plus arbitrary strings (random bytes, unicode, 20k-char, unbalanced, division by zero) which must return Ok/Err without panicking; plus every one of the 1,112,064 Unicode scalar values placed alone at 9 parser positions (start, after a sign, after an operator, numerator, denominator, inside parentheses, between terms, end)");
     ctx.assume("strings with whitespace outside the outer parentheses, coefficients other than +-1, or more than one constant per component are not taken to be in the grammar");
     let prev = panic::take_hook();
     panic::set_hook(Box::new(|_| {}));
@@ -347,6 +393,9 @@ pub fn run(ctx: &Ctx) {
             let f = &all_f[rng.gen_range(0, all_f.len())];
             check_grammar(a, b, f, st);
         }
+        // the whole code space, a slice per shard
+        let per = (0x110000u32 + shards as u32 - 1) / shards as u32;
+        sweep_codepoints(i as u32 * per, ((i as u32 + 1) * per).min(0x110000), st);
         let na = tier.pick(1_000u64, 30_000u64);
         for _ in 0..na {
             let s = arbitrary_string(rng);
